@@ -1771,6 +1771,8 @@ func nsC26Class(msg string) string {
 		return "[c26-postings-differ]"
 	case strings.Contains(msg, "metadata differ"):
 		return "[c26-metadata-differ]"
+	case strings.Contains(msg, "machine fails") && strings.Contains(msg, "exceeded 100%"):
+		return "[c26-portion-overflow-strictness]"
 	case strings.Contains(msg, "machine fails") && strings.Contains(msg, "different assets"):
 		return "[c26-asset-mismatch-strictness]"
 	case strings.Contains(msg, "machine fails") && strings.Contains(msg, "insufficient funds"):
